@@ -1453,6 +1453,25 @@ theorem updateLockValidators_pubShares {PK SK Sig V : Type} (n' : Nat) (key : Na
 
 end Protocols
 
+/-! ### append mode: the existing shares rebuilt from the old lock -/
+
+theorem existingShares_spec {PK SK Sig : Type} (vals : List (DistValidator PK Sig)) (secrets : List SK)
+    (ex : List (Share PK SK)) (hlen : secrets.length = vals.length) (h : existingShares vals secrets = some ex) :
+    ex.map (·.secret) = secrets ∧ ex.map (·.pubKey) = vals.map (·.pubKey) := by
+  unfold existingShares at h
+  have hl : ¬ vals.length < secrets.length := by omega
+  simp only [hl, if_false, Option.some.injEq] at h
+  subst h
+  constructor
+  · rw [List.map_map]
+    have : (secrets.zip vals).map Prod.fst = secrets := List.map_fst_zip (by omega)
+    conv_rhs => rw [← this]
+    rfl
+  · rw [List.map_map]
+    have : (secrets.zip vals).map Prod.snd = vals := List.map_snd_zip (by omega)
+    conv_rhs => rw [← this, List.map_map]
+    rfl
+
 /-! ### a small computable instance (non-vacuity examples) -/
 
 section Toy
